@@ -80,6 +80,7 @@ namespace vs
         std::map<const void *, int> depth;               // recursive mutex depth
         std::int64_t clock_ns{0};
         std::uint64_t clock_reads{0};
+        std::int64_t clock_jump_ns{0};                    // != 0: every clock read is a choice point {stand still, jump ahead by this much}
         // choices
         std::vector<int> prefix;
         std::vector<ChoicePoint> trace;
@@ -441,6 +442,17 @@ extern "C"
         if (vs::in_control() && (clk == CLOCK_REALTIME || clk == CLOCK_MONOTONIC))
         {
             ++s.clock_reads;
+            if (s.clock_jump_ns != 0)
+            {
+                // environment choice: the wall clock stood still (default) or jumped ahead before this read
+                vs::ChoicePoint cp; cp.kind = "clock-read"; cp.current_enabled = true; cp.options = {3000, 3001};
+                const std::size_t pos = s.trace.size();
+                int idx = pos < s.prefix.size() ? s.prefix[pos] : 0;
+                if (idx < 0 || idx > 1) idx = 0;
+                cp.chosen_index = idx;
+                s.trace.push_back(cp);
+                if (idx == 1) s.clock_ns += s.clock_jump_ns;
+            }
             ts->tv_sec = static_cast<time_t>(s.clock_ns / 1000000000LL);
             ts->tv_nsec = static_cast<long>(s.clock_ns % 1000000000LL);
             return 0;
